@@ -14,11 +14,11 @@ from .. import core, env, probe, tex
 from ..gen import docs as gdocs
 from ..gen import soup as gsoup
 
-SED = ('s/\\\\cref\\{ylab\\}/Figure~1 of the long replacement text/g\n'
-       's/\\\\Cref\\{ylab\\}/Figure~1/g\n'
-       's/\\\\cref\\{yl2\\}/Eq.\\\\ (1)   and   more/g\n'
-       's/\\\\crefrange\\{ylab\\}\\{yl2\\}/Figures~1 to~2 of the long replacement/g\n'
-       's/\\\\cref\\*\\{ylab\\}/\\\\verb|verbatim replacement text|/g\n')
+SED = ('s/\\\\cref{ylab}/Figure~1 of the long replacement text/g\n'
+       's/\\\\Cref{ylab}/Figure~1/g\n'
+       's/\\\\cref{yl2}/Eq.\\\\ (1)   and   more/g\n'
+       's/\\\\crefrange{ylab}{yl2}/Figures~1 to~2 of the long replacement/g\n'
+       's/\\\\cref\\*{ylab}/\\\\verb|verbatim replacement text|/g\n')
 GLS_LONG = ('\\gls@defglossaryentry{ylab}%\n{%\nname={ßname},%\ntext={ßtext ŉ ǰ ﬁ long glossary text},%\n'
             'plural={ßplural long},%\ndescription={ßdescription of the entry},%\nfirst={first}%\n}%\n')
 
@@ -99,7 +99,7 @@ TAILS = [
     ('yvmequrepl', '', '\\begin{yvmequrepl}x.\\end{yvmequrepl}'),
     ('yvmswap', '', '\\yvmswap{x}'),
 ]
-HEADS = ['', 'A ', 'A\n', 'A\n\\label{x}', 'A\n\\label{x}\n', 'A\n\n', '\\label{x}\n', 'A %c\n', '{', '\\zzfoo{', '$$a$$\n',
+HEADS = ['', '@EMPTY', '@EMPTY A ', 'A ', 'A\n', 'A\n\\label{x}', 'A\n\\label{x}\n', 'A\n\n', '\\label{x}\n', 'A %c\n', '{', '\\zzfoo{', '$$a$$\n',
          'A\n  \\index{i}\n  ', 'é𝔸 ']
 TRAIL = ['', ' ', '\n', '.', '}', ' x', '\n\n', ' \n ', '\n\\label{x}', '\n\\label{x}\n', '%', '%c\n', '\\zzunk']
 
@@ -137,6 +137,11 @@ class C01(core.Check):
         self.sed = os.path.join(self.tmp, 'y.sed')
         with open(self.sed, 'w', encoding='utf-8') as f:
             f.write(SED)
+        self.empty = os.path.join(self.tmp, 'empty.tex')
+        open(self.empty, 'w').close()
+        self.skiponly = os.path.join(self.tmp, 'skiponly.tex')
+        with open(self.skiponly, 'w') as f:
+            f.write('%%% LT-SKIP-BEGIN\n' + 'skipped text ' * 30 + '\n%%% LT-SKIP-END\n')
 
     def teardown(self):
         self.clock.stop()
@@ -218,7 +223,8 @@ class C01(core.Check):
                     with open(fn, 'w', encoding='utf-8') as f:
                         f.write(pad + pre)
                     pre = '\\LTinput{%s}' % fn
-            src = pre + HEADS[case['head']] + mid + cons + TRAIL[case['trail']]
+            head = HEADS[case['head']].replace('@EMPTY', '\\LTinput{%s}' % (self.empty if case['trail'] % 2 else self.skiponly))
+            src = pre + head + mid + cons + TRAIL[case['trail']]
             return src, opts, case['ml']
         if fam == 'soup':
             return case['src'], dict(case['opts']), case['ml']
